@@ -101,6 +101,18 @@ class C13(object):
         return (300, 25.0)
 
     def gen(self, rng, tier, k):
+        if k % 40 == 17:
+            # two calls for one key in flight on one instance (or function): the first stores its
+            # result, the body of the second fails afterwards; the stored result must survive
+            who, a, b, c = rng.randint(0, 2), rng.choice([1, 3, 5]), rng.choice([0, 1]), rng.choice([0, 1])
+            call = [who, a, b, c, "pos"]
+            other = [who, rng.choice([0, 2]), 0, 0, "pos"]
+            steps = [["call", [other]]] if rng.random() < 0.5 else []
+            n0 = len(steps)
+            steps += [["call", [list(call), list(call)]], ["call", [list(call)]], ["call", [list(call)]]]
+            return {"target": rng.choice(["per_instance", "per_instance", "alru"]), "maxsize": rng.randint(2, 4), "ttl": 0, "clock_origin": None,
+                    "lazy_blocks": False, "lazy_fail_every": 0, "steps": steps, "prio": gen.gen_prio(rng, 2),
+                    "fail_serials": [n0 + 2], "shared_deco": False}
         target = ["alru", "alru", "alru_keyfn", "per_instance", "lazy"][k % 5] if rng.random() < 0.6 else rng.choice(["alru", "alru_keyfn", "per_instance", "lazy"])
         steps = []
         avals = rng.sample([0, 1, 2, 3, 4, 5, 8, 9], rng.randint(1, 4))
